@@ -225,3 +225,37 @@ func verifC20_stuck_app() {
 	<-readDone
 	vObserve("stuck-app", err == nil)
 }
+
+// C20.slow-close: the connection is ended by the library itself (a read's context expires and the timeout watcher
+// closes the connection) over a transport whose Close takes a while; the application calls Close or CloseNow in the
+// middle of that. When its call returns, the watcher goroutine has exited.
+func verifC20_slow_close() {
+	client := vParam("client", 1) == 1
+	vInstallRand()
+	t := vNewTransport(nil)
+	t.endMode = vEndBlock
+	t.slowClose = 500 * time.Millisecond
+	c := vNewConn(t, client, nil, 32, 64)
+	ctx, cancel := context.WithTimeout(vBG, time.Second)
+	defer cancel()
+	rdone := make(chan struct{})
+	go func() {
+		c.Read(ctx)
+		close(rdone)
+	}()
+	// 0: before the expiry, 1: while the watcher is inside the transport's Close, 2: after it
+	when := vChoose("when", 3)
+	time.Sleep([]time.Duration{500 * time.Millisecond, 1200 * time.Millisecond, 2 * time.Second}[when])
+	var err error
+	if vChoose("closenow", 2) == 1 {
+		err = c.CloseNow()
+	} else {
+		err = c.Close(StatusNormalClosure, "")
+	}
+	vReach("C20.slow-close.returned")
+	n := vGhostGoroutines()
+	vAssert(n == 0, "C20.exit.no-goroutine-left-when-close-returns")
+	vAssert(vNot(vIsOpen(c)), "C20.slow-close.closed")
+	<-rdone
+	vObserve("c20slowclose", when, err == nil)
+}
